@@ -108,7 +108,7 @@ def tla_seq(xs):
 
 
 class TlcRun:
-    def __init__(self, wd, module, cfg, env=None, name="", mem="3g", timeout=3600, workers=1, extra=None, deque=False):
+    def __init__(self, wd, module, cfg, env=None, name="", mem="2g", timeout=3600, workers=1, extra=None, deque=False):
         self.wd, self.module, self.cfg, self.env = wd, module, cfg, env or {}
         self.name, self.mem, self.timeout, self.workers = name or module, mem, timeout, workers
         self.extra = extra or []
@@ -164,7 +164,7 @@ class TlcRun:
     def other_error(self):
         """An error that is not an invariant violation = tool error."""
         if self.timed_out():
-            return "TLC timed out after %ds" % self.timeout
+            return "TLC was killed (time-out of %ds, or the kernel's out-of-memory killer) after %.0fs" % (self.timeout, self.wall)
         errs = [l for l in self.out.splitlines() if l.startswith("Error:")]
         errs = [l for l in errs if "Invariant" not in l and "The behavior up to this point" not in l]
         if errs:
